@@ -198,6 +198,158 @@ func plain(es []ent) []string {
 	return l
 }
 
+// prepareHead shapes the history and HEAD of the repository (before it is copied):
+// hist 2: a second commit on top of the first; hist 3: HEAD's commit is a merge of
+// its predecessor and a side commit; hk "detached": HEAD holds the hash; merge:
+// .git/MERGE_HEAD names an unrelated commit.  Returns the names of the known commits.
+func prepareHead(a *porc.Repo, c lib.Case) map[string]string {
+	known := map[string]string{}
+	rev := func(x string) string { return strings.TrimSpace(string(a.Git("rev-parse", x))) }
+	hist := c.I("hist")
+	if hist >= 1 {
+		switch hist {
+		case 2:
+			p := rev("HEAD")
+			known[p] = "p"
+			h2 := strings.TrimSpace(string(a.Git("commit-tree", "HEAD^{tree}", "-p", p, "-m", "second")))
+			a.Git("update-ref", "HEAD", h2)
+		case 3:
+			p := rev("HEAD")
+			known[p] = "p"
+			side := strings.TrimSpace(string(a.Git("commit-tree", "HEAD^{tree}", "-p", p, "-m", "side")))
+			known[side] = "s"
+			m := strings.TrimSpace(string(a.Git("commit-tree", "HEAD^{tree}", "-p", p, "-p", side, "-m", "merge")))
+			a.Git("update-ref", "HEAD", m)
+		}
+		known[rev("HEAD")] = "h"
+		if c.S("hk") == "detached" {
+			a.Git("update-ref", "--no-deref", "HEAD", rev("HEAD"))
+		}
+		if c.Bool("merge") {
+			// an unrelated root commit: `git commit` drops a MERGE_HEAD that is a descendant of HEAD (reduce_heads)
+			m := strings.TrimSpace(string(a.Git("commit-tree", "HEAD^{tree}", "-m", "other")))
+			known[m] = "m"
+			os.WriteFile(a.Path(".git/MERGE_HEAD"), []byte(m+"\n"), 0o644)
+			os.WriteFile(a.Path(".git/MERGE_MODE"), nil, 0o644)
+			os.WriteFile(a.Path(".git/MERGE_MSG"), []byte("merge\n"), 0o644)
+		}
+	}
+	return known
+}
+
+// headObs renders what a commit attempt did: result, parents of the new commit,
+// kind of HEAD, whether HEAD / the branch now point at a new commit.
+func headObs(res string, parents []string, known map[string]string, sym bool, headHash, branchHash string) lib.Out {
+	var ps []lib.Out
+	if res == "ok" {
+		for _, p := range parents {
+			n, ok := known[p]
+			if !ok {
+				n = "other"
+			}
+			ps = append(ps, lib.Sym(n))
+		}
+	}
+	kind := "det"
+	if sym {
+		kind = "sym"
+	}
+	isNew := func(h string) bool { _, k := known[h]; return h != "" && !k }
+	if res != "ok" {
+		return lib.List(lib.Sym(res), lib.List(), lib.Sym(kind), lib.Bool(false), lib.Bool(false))
+	}
+	return lib.List(lib.Sym(res), lib.List(ps...), lib.Sym(kind), lib.Bool(isNew(headHash)), lib.Bool(isNew(branchHash)))
+}
+
+func commitHead(a, b *porc.Repo, c lib.Case, known map[string]string, extra map[string]any) (lib.Out, any) {
+	// ---- go-git on A
+	repo, err := git.PlainOpen(a.Dir)
+	if err != nil {
+		return lib.Err("open"), err.Error()
+	}
+	w, err := repo.Worktree()
+	if err != nil {
+		return lib.Err("worktree"), err.Error()
+	}
+	h, operr := w.Commit("msg", &git.CommitOptions{Author: sig, Committer: sig, AllowEmptyCommits: c.Bool("allow"), Amend: c.Bool("amend")})
+	res := "ok"
+	var parents []string
+	if operr != nil {
+		res = "err"
+		if operr == git.ErrEmptyCommit {
+			res = "empty"
+		}
+		extra["err"] = operr.Error()
+	} else if co, e2 := repo.CommitObject(h); e2 == nil {
+		for _, p := range co.ParentHashes {
+			parents = append(parents, p.String())
+		}
+		extra["tree_id"] = co.TreeHash.String()
+	} else {
+		res = "err"
+		extra["err"] = e2.Error()
+	}
+	sym := false
+	headHash, branchHash := "", ""
+	if ref, e2 := repo.Storer.Reference(plumbing.HEAD); e2 == nil {
+		sym = ref.Type() == plumbing.SymbolicReference
+	}
+	if ref, e2 := repo.Head(); e2 == nil {
+		headHash = ref.Hash().String()
+	}
+	if ref, e2 := repo.Storer.Reference(plumbing.ReferenceName("refs/heads/main")); e2 == nil {
+		branchHash = ref.Hash().String()
+	}
+	repo.Close()
+	out := headObs(res, parents, known, sym, headHash, branchHash)
+
+	// ---- git on B
+	args := []string{"commit", "-q", "--no-verify", "-m", "msg"}
+	if c.Bool("allow") {
+		args = append(args, "--allow-empty")
+	}
+	if c.Bool("amend") {
+		args = append(args, "--amend")
+	}
+	before, _ := b.GitAt(b.Dir, nil, "rev-parse", "-q", "--verify", "HEAD")
+	_, gerr := b.GitAt(b.Dir, nil, args...)
+	gres := "ok"
+	if gerr != nil {
+		extra["giterr"] = gerr.Error()
+		gres = "err"
+		after, _ := b.GitAt(b.Dir, nil, "rev-parse", "-q", "--verify", "HEAD")
+		if string(before) != string(after) {
+			gres = "err-but-moved"
+		} else if !strings.Contains(gerr.Error(), "fatal:") && !strings.Contains(gerr.Error(), "error:") {
+			// exit status 1 without an error message: nothing to commit / the amended commit would be empty
+			gres = "empty"
+		}
+	}
+	var gparents []string
+	gsym := false
+	ghead, gbranch := "", ""
+	if _, e2 := b.GitAt(b.Dir, nil, "symbolic-ref", "-q", "HEAD"); e2 == nil {
+		gsym = true
+	}
+	if o, e2 := b.GitAt(b.Dir, nil, "rev-list", "--parents", "-n", "1", "HEAD"); e2 == nil {
+		f := strings.Fields(string(o))
+		if len(f) > 0 {
+			ghead = f[0]
+			gparents = f[1:]
+		}
+	}
+	if o, e2 := b.GitAt(b.Dir, nil, "rev-parse", "-q", "--verify", "refs/heads/main"); e2 == nil {
+		gbranch = strings.TrimSpace(string(o))
+	}
+	if gres == "ok" {
+		o, _ := b.GitAt(b.Dir, nil, "rev-parse", "HEAD^{tree}")
+		extra["git_tree_id"] = strings.TrimSpace(string(o))
+	}
+	extra["git_obs"] = lib.Render(headObs(gres, gparents, known, gsym, ghead, gbranch))
+	extra["obs"] = lib.Render(out)
+	return out, extra
+}
+
 var sig = &object.Signature{Name: "v", Email: "v@v", When: time.Unix(1600000100, 0).UTC()}
 
 func main() {
@@ -205,11 +357,18 @@ func main() {
 		a := porc.New()
 		defer a.Close()
 		a.Build(recipe(c))
+		op := c.S("op")
+		var known map[string]string
+		if op == "commithead" {
+			known = prepareHead(a, c)
+		}
 		// the copy git works on
 		b := &porc.Repo{Root: a.Root, Dir: filepath.Join(a.Root, "g"), Env: a.Env}
 		copyTree(a.Dir, b.Dir)
-		op := c.S("op")
 		extra := map[string]any{}
+		if op == "commithead" {
+			return commitHead(a, b, c, known, extra)
+		}
 
 		// ---- go-git on A
 		repo, err := git.PlainOpen(a.Dir)
@@ -229,6 +388,8 @@ func main() {
 			operr = w.AddWithOptions(&git.AddOptions{All: true})
 		case "addglob":
 			operr = w.AddGlob(c.S("path"))
+		case "rmglob":
+			operr = w.RemoveGlob(c.S("path"))
 		case "rm":
 			_, operr = w.Remove(c.S("path"))
 		case "mv":
@@ -281,7 +442,25 @@ func main() {
 		case "addall":
 			_, gerr = b.GitAt(b.Dir, nil, "add", "-A")
 		case "addglob":
-			_, gerr = b.GitAt(b.Dir, nil, "add", "--", ":(glob)"+c.S("path"))
+			// what a shell makes of the unquoted pattern: its expansion in the worktree (Go's own
+			// path/filepath.Glob, independent of go-billy's), the repository directory left out
+			ms, _ := filepath.Glob(filepath.Join(b.Dir, filepath.FromSlash(c.S("path"))))
+			args := []string{"add", "--"}
+			for _, m := range ms {
+				rel, _ := filepath.Rel(b.Dir, m)
+				rel = filepath.ToSlash(rel)
+				if rel == ".git" || strings.HasPrefix(rel, ".git/") {
+					continue
+				}
+				args = append(args, ":(literal)"+rel)
+			}
+			if len(args) == 2 {
+				gerr = os.ErrNotExist
+			} else {
+				_, gerr = b.GitAt(b.Dir, nil, args...)
+			}
+		case "rmglob":
+			_, gerr = b.GitAt(b.Dir, nil, "rm", "-r", "-f", "-q", "--", c.S("path"))
 		case "rm":
 			_, gerr = b.GitAt(b.Dir, nil, "rm", "-r", "-f", "-q", "--", c.S("path"))
 		case "mv":
@@ -307,7 +486,7 @@ func main() {
 		wb := worktreeOf(b.Dir)
 		extra["a_index"], extra["b_index"] = plain(ia), plain(ib)
 		extra["a_wt"], extra["b_wt"] = plain(wa), plain(wb)
-		if op == "mv" || op == "add" || op == "addall" {
+		if op == "mv" || op == "add" || op == "addall" || op == "addglob" {
 			sa, _ := a.GitStatus()
 			b2 := b
 			out, _ := b2.GitAt(b.Dir, nil, "-c", "core.quotepath=false", "status", "--porcelain=v1", "-z", "--untracked-files=all", "--no-renames")
@@ -325,7 +504,11 @@ func main() {
 			res = lib.Sym("err")
 		}
 		if op == "commit" {
-			return lib.List(res, render(tree)), extra
+			var id []byte
+			if tid, ok := extra["tree_id"].(string); ok && operr == nil {
+				id = lib.Unhex(tid)
+			}
+			return lib.List(res, render(tree), lib.Bytes(id)), extra
 		}
 		return lib.List(res, render(ia), render(wa)), extra
 	}, 16)
